@@ -264,6 +264,8 @@ class Real(object):
             else: self.W(tag=w)
             return
         if k == 'flush': flush(); feature('branch:explicit-flush'); return
+        if k == 'commit': feature('branch:body-commit'); commit(); return
+        if k == 'rollback': feature('branch:body-rollback'); rollback(); return
         if k == 'mark': self.trace.append(p['n']); return
         if k == 'observe':
             r = sorted(select(w.tag for w in self.W)[:])       # a query: flushes whatever is pending
@@ -487,6 +489,7 @@ def rand_leafs(rng, base):
         for j in range(rng.choice([1, 1, 2])):
             if LINK_POOL: ps.append({'k': 'write', 'w': LINK_POOL.pop()})
     if rng.random() < 0.25: ps.append({'k': rng.choice(['flush', 'observe'])})
+    if rng.random() < 0.12: ps.append({'k': rng.choice(['commit', 'commit', 'rollback'])})     # the body commits / rolls back itself
     return ps
 
 
@@ -643,6 +646,108 @@ def scripted_links(kind, o, ops, flush_kind, outcomes, inner=False):
     return {'prog': prog, 'env': env, 'spec': spec}
 
 
+def scripted_manual(kind, o, variant, outcomes, commit_fail=()):
+    """bodies that call commit() (and rollback()) themselves: execution i writes A_i, commits, writes B_i
+    [variant 'rollback': rolls back, writes C_i] and ends with outcomes[i].  A_i = 100(i+1), B_i = A_i+1, C_i = A_i+2."""
+    bodies = []; spec_bodies = []
+    for i, out in enumerate(outcomes):
+        A = 100 * (i + 1)
+        ps = [{'k': 'mark', 'n': i}, {'k': 'observe'}, {'k': 'write', 'w': A}, {'k': 'commit'}, {'k': 'write', 'w': A + 1}]
+        tail = [A + 1]
+        if variant == 'rollback':
+            ps += [{'k': 'rollback'}, {'k': 'write', 'w': A + 2}]; tail = [A + 2]
+        elif variant == 'commit2':
+            ps += [{'k': 'commit'}, {'k': 'write', 'w': A + 2}]; tail = [A + 2]
+        if out != 'ret': ps.append({'k': 'raise', 'e': out})
+        bodies.append(seq(*ps))
+        spec_bodies.append({'own': [A] + ([A + 1] if variant == 'commit2' else []), 'tail': tail, 'out': out})
+    env = {'should_retry': SHOULD_RETRY, 'tx': TX, 'commit_fail': list(commit_fail)}
+    if kind == 'decorator': prog = {'k': 'call', 'o': o, 'bodies': bodies}
+    elif kind == 'bottle': prog = {'k': 'bottle', 'resp': RESP, 'err': ERR, 'bodies': bodies}
+    elif kind == 'cm': prog = {'k': 'with', 'o': o, 'p': bodies[0]}
+    else: prog = {'k': 'flask', 'hooked': True, 'view': bodies[0]}
+    spec = {'kind': kind, 'manual': variant, 'bodies': spec_bodies,
+            'retry': o.get('retry', 0) if kind == 'decorator' else 0,
+            'allowed': o['allowed'] if kind in ('decorator', 'cm') else
+                       ({'yes': ['u6'], 'raises': []} if kind == 'bottle' else {'yes': [], 'raises': []}),
+            'retryable': o['retryable'] if kind == 'decorator' else {'yes': list(TX), 'raises': []},
+            'commit_fail': list(commit_fail)}
+    return {'prog': prog, 'env': env, 'spec': spec}
+
+
+def oracle_manual(ctx, case, obs):
+    """C18 for bodies that commit themselves: what a body committed itself stays; of the rest, what is pending when the
+    final execution ends is committed iff it finished normally / raised an allowed, non-retried exception; every
+    execution starts from exactly the committed state; the exception propagates"""
+    spec = case['spec']; kind = spec['kind']; bodies = spec['bodies']
+    key0 = 'C18:%s:manual' % kind
+    inp = {'prog': strip(case['prog']), 'env': case['env'], 'spec': spec}
+    def retryable(e): return e in SHOULD_RETRY or pred_result(spec['retryable'], e)[0] == 'yes'
+    def allowed(e): return pred_result(spec['allowed'], e)[0] == 'yes'
+    trace = obs['trace']
+    marks = [t for t in trace if isinstance(t, int)]
+    saws = [t for prev, t in zip([None] + trace, trace) if isinstance(t, list) and isinstance(prev, int)]
+    n = len(marks)
+    if n == 0 or n > len(bodies): 
+        if n > spec['retry'] + 1:
+            ctx.violation('the body was executed %d times with retry=%d' % (n, spec['retry']), inp, observed=obs, key=key0 + '-retry-bound')
+        return
+    if n > spec['retry'] + 1:
+        ctx.violation('the body was executed %d times with retry=%d' % (n, spec['retry']), inp, observed=obs, key=key0 + '-retry-bound')
+    own = []
+    for i in range(n):
+        if i < len(saws) and saws[i] != sorted(own):
+            ctx.violation('execution %d of the body saw %s but the committed state was %s' % (i, saws[i], sorted(own)), inp,
+                          observed=obs, key=key0 + '-attempt-start')
+        if i < n - 1 and not retryable(bodies[i]['out']):
+            ctx.violation('the body was executed again after %s, which is not retryable' % bodies[i]['out'], inp, observed=obs,
+                          key=key0 + '-rerun-nonretryable')
+        own += bodies[i]['own']
+    final = bodies[n - 1]; fout = final['out']
+    ok = fout == 'ret' or (allowed(fout) and not retryable(fout))
+    committed = obs['raw_rows']
+    missing_own = [w for w in own if w not in committed]
+    if missing_own:
+        ctx.violation('rows %s which the body committed itself are not in the database' % missing_own, inp, observed=obs, key=key0 + '-own-commit-lost')
+    extra = [w for w in committed if w not in own]
+    if not ok and extra and not (fout != 'ret' and allowed(fout)):
+        ctx.violation('rows %s were committed although the body raised %s after its own commit()' % (extra, fout), inp, observed=obs,
+                      expected=sorted(own), key=key0 + '-commit-after-failure')
+    if extra and sorted(extra) != sorted(final['tail']):
+        ctx.violation('rows %s were committed; only %s were pending when the final execution ended' % (extra, final['tail']), inp,
+                      observed=obs, key=key0 + '-foreign-rows')
+    if ok and sorted(extra) != sorted(final['tail']):
+        ctx.violation('the body finished with %s but its pending writes %s were not committed (found %s)' % (fout, final['tail'], extra),
+                      inp, observed=obs, key=key0 + '-no-commit-after-success')
+    if fout != 'ret' and obs['out'] == 'ret':
+        ctx.violation('the body raised %s but the session swallowed it' % fout, inp, observed=obs, key=key0 + '-swallowed')
+    if fout == 'ret' and obs['out'] != 'ret':
+        ctx.violation('the body finished normally but %s was raised' % obs['out'], inp, observed=obs, key=key0 + '-spurious-exception')
+    if obs['counter'] != 0 or obs['session'] or obs['pending_caches']:
+        ctx.violation('session state left behind', inp, observed=obs, key=key0 + '-leak')
+
+
+def manual_grid(ctx, rng):
+    cases = []
+    outs = ['ret', 'u0', 'u2', 'u3', 'u5', 'u6', 'u7']
+    combos = []
+    for variant in ('plain', 'rollback', 'commit2'):
+        for kind in ('cm', 'flask', 'bottle'):
+            for out in outs: combos.append((variant, kind, 0, [out]))
+        for retry in (0, 1, 2):
+            for sc in itertools.product(['ret', 'u0', 'u2', 'u3', 'u5'], repeat=retry + 1):
+                combos.append((variant, 'decorator', retry, list(sc)))
+    if not ctx.thorough: combos = rng.sample(combos, 140)
+    for variant, kind, retry, sc in combos:
+        o = {'sid': next(SID)}
+        if retry: o['retry'] = retry
+        o.update(mk_pred(rng, 'allowed', rng.choice(['default', 'list', 'callable']), classes=['U2'], table={'yes': ['u2'], 'raises': []}))
+        o.update(mk_pred(rng, 'retryable', rng.choice(['default', 'list']), classes=['U0', 'TransactionError']))
+        if kind in ('flask', 'bottle'): o = {'sid': 0, 'allowed': {'yes': [], 'raises': []}, 'retryable': {'yes': list(TX), 'raises': []}}
+        cases.append(scripted_manual(kind, o, variant, sc))
+    return cases
+
+
 def link_grid(ctx, rng):
     """m2m-only bodies: {add, remove, add+remove, two adds} x {explicit flush, flush by query, no flush} x outcome x
     decorator (retry 0/1) / context manager / Flask / Bottle x (directly | inside an inner session) x strict/immediate"""
@@ -774,7 +879,7 @@ def run_cases(ctx, real, cases, kind):
         if 'attempts' in obs: ctx.count('attempts:%d' % obs['attempts'])
         if obs['ncommit']: ctx.count('real-commits:%d' % obs['ncommit'])
         if mod is not None: compare(ctx, case, obs, mod)
-        if 'spec' in case: oracle(pend, case, obs)
+        if 'spec' in case: (oracle_manual if case['spec'].get('manual') else oracle)(pend, case, obs)
     pend.flush()
 
 
@@ -887,6 +992,7 @@ def run_all(ctx, real):
     run_cases(ctx, real, grid(ctx, rng), 'grid')
     run_cases(ctx, real, gen_grid(ctx, rng), 'generator-grid')
     run_cases(ctx, real, link_grid(ctx, rng), 'm2m-link-grid')
+    run_cases(ctx, real, manual_grid(ctx, rng), 'manual-commit-grid')
     n = ctx.scale(700, 12000)
     cases = []
     for _ in range(n):
